@@ -417,7 +417,9 @@ def _strings_rules(db, rep):
                 for parts in itertools.product(alphabet, repeat=ln):
                     data = b''.join(parts)
                     cases += 1
-                    got = Interp(db, on_call=hook).call(g, [data])
+                    it_ = Interp(db, on_call=hook)
+                    it_.signed_char = True       # plain char is signed where the library is built: an ordered comparison sees the bytes of a multi-byte sequence as negative
+                    got = it_.call(g, [data])
                     if isinstance(got, list) and len(got) == 2 and isinstance(got[0], tuple) and got[0][0] == 'sptr':
                         got = got[0][1][got[0][2]:got[0][2] + got[1]]
                     want = data.strip(bytes(SPACES))
